@@ -265,7 +265,7 @@ class C16(Base):
             if rng.random() < 0.5:
                 nb = rng.choice([9, 10, 16, 17, 33, 40])
             else:
-                bigkeys = rng.choice([9, 10, 16, 17, 33, 40])
+                bigkeys = rng.choice([9, 10, 16, 17, 33, 40, 64, 65, 66, 130])
         segs = ["cfg:" + rng.choice("sssaapq")]
         for j in range(nb):
             b = self.gen_bundle(rng, ids, p_noloc)
